@@ -1,8 +1,9 @@
 SPECIFICATION Spec
-CONSTANT Names = {"x"}
-CONSTANT NameSeq <- Seq1
+CONSTANT Names = {"x", "__class__"}
+CONSTANT NameSeq <- Seq1C
 CONSTANT FShapes <- Trees4
 CONSTANT FFlags <- F9
+CONSTANT Mode = "all"
 CONSTANT FModFlags <- FMod
 CONSTANT MaxScopes = 4
 CONSTANT MaxDepth = 3
